@@ -11,6 +11,7 @@ use pgp::{
 
 use crate::rng::SimRng;
 
+#[derive(Debug)]
 pub struct PoolKey {
     pub name: &'static str,
     pub secret: SignedSecretKey,
